@@ -42,6 +42,8 @@ def make_target(d, kind, seed):
         p = os.path.join(d, {"absent": ["target.tdf", "t\u00e4rget \u20ac.tdf", "name with space .tdf", "~tilde.tdf", "x" * 200 + ".tdf"][seed % 5],
                              "absent-no-suffix": "walk", "absent-other-suffix": "walk.dat", "absent-upper-suffix": "walk.TDF"}[kind])
         return p, None
+    # existing targets come under plain and under awkward names too (an existence test that normalises, strips or expands the name would miss them)
+    p = os.path.join(d, ["target.tdf", "t\u00e4rget \u20ac.tdf", "name with space .tdf", "~tilde.tdf", "x" * 200 + ".tdf", "target.tdf", "UPPER.TDF", "trailing-dot.tdf."][seed % 8])
     if kind == "directory":
         os.mkdir(p)
         return p, "dir"
